@@ -803,6 +803,12 @@ def models(draw, feats=(), max_classes=5, doc_type=None):
             'recognize': [['scalar', ['str']]],
             'savorize': [['scalar_to_map', 'text']],
             'sweeten': [['map_to_scalar', 'text']]})
+        if draw(st.integers(0, 2)) == 0:
+            # the text may be absent: the object is then written as a null
+            classes[-1].update({'params': [{'name': 'text', 'type': ['opt', 'str']}],
+                                'recognize': [['scalar', ['str', 'none']]],
+                                'savorize': [['scalar_to_map_opt', 'text']],
+                                'sweeten': [['map_to_scalar_opt', 'text']]})
         objs.append('Z')
         z = ['ref', 'Z']
         force_doc = draw(st.sampled_from([None, ['list', z], ['dict', 'str', z], ['list', ['opt', z]], z]))
